@@ -996,11 +996,13 @@ def scanRows (rowFn : List Nat → M (List Nat)) : Nat → List Nat → List (Li
     let buf ← rowFn buf
     scanRows rowFn n buf (buf :: acc)
 
-def scan (i : Info) : M Img := do
-  let sl : Int :=
-    if i.type == 1 ∨ i.type == 2 ∨ i.type == 5 then i.width
-    else if i.type == 3 ∨ i.type == 6 then i.width * 3
-    else wrapU 32 (i.width + 7) / 8
+/-- `_scanline_length` as `initialize()` computes it -/
+def scanLen (i : Info) : Int :=
+  if i.type == 1 ∨ i.type == 2 ∨ i.type == 5 then i.width
+  else if i.type == 3 ∨ i.type == 6 then i.width * 3
+  else wrapU 32 (i.width + 7) / 8
+
+def scanWith (i : Info) (sl : Int) : M Img := do
   if i.height > scanRowLimit then stop (.err "big") else
   alloc sl
   if sl == 0 then
@@ -1014,6 +1016,8 @@ def scan (i : Info) : M Img := do
           pure (if i.type == 4 then manipBits row else row))
       i.height.toNat (List.replicate sl.toNat 0) []
     pure { hdr := [i.width, i.height, sl, i.height], pix := rs.reverse.flatten }
+
+def scan (i : Info) : M Img := scanWith i (scanLen i)
 
 def run (st : Settings) : M Img := do
   let i ← readHeader
